@@ -162,6 +162,21 @@ def run_case(case, seed):
             quarter = np.linalg.matrix_rank(O.real_interleaved(A)) / 4
             if rk != quarter:
                 fails.append(fail("rank_quarter_real", f"rank={rk}, real representation rank/4 = {quarter}", fn="rank", **tags))
+        # the same array object with new contents (a work buffer refilled in place): the answer must follow the contents
+        W_ = Aq.copy()
+        ok_a, r_a = call(u.rank, W_)
+        W_[...] = np.quaternion(0, 0, 0, 0)
+        ok_b, r_b = call(u.rank, W_)
+        W_[...] = Aq
+        if W_.shape[0] >= 1:
+            W_[0, :] = np.quaternion(0, 0, 0, 0)
+        ok_c, r_c = call(u.rank, W_)
+        A_c = np.concatenate([np.zeros_like(A[:1]), A[1:]], axis=0)
+        exp_c = O.rank(A_c) if m >= 1 else 0
+        sv_c = O.svals(A_c)
+        borderline = bool(len(sv_c) and sv_c[0] > 0 and any(1e-15 * sv_c[0] < v < 1e-8 * sv_c[0] for v in sv_c))
+        if not (ok_a and ok_b and ok_c) or r_b != 0 or (r_a == r and not borderline and r_c != exp_c):
+            fails.append(fail("rank_follows_contents", f"same array object refilled in place: rank {r_a} -> zero matrix: {r_b} -> first row zeroed: {r_c} (expected {r}, 0, {exp_c})", fn="rank", **tags))
         ok, rkH = call(u.rank, G.to_quat(O.qH(A)))
         if not ok or rkH != r:
             fails.append(fail("rank_conj_transpose", f"rank(A^H)={rkH}", fn="rank", **tags))
